@@ -339,6 +339,8 @@ def finish(ctx, level='proof', checker_cmd='', extra_cov=None):
         return 0
     # one replay per violation, concrete failing inputs first
     violations.sort(key=lambda p: 0 if p['found_input'] else 1)
+    for p in violations[:4]:
+        print('[%s] problem (%s): %s | %s' % (ctx.prop, p['kind'], p['what'], json.dumps(p['detail'], default=str)[:700]), flush=True)
     concrete = [p for p in violations if p['found_input']]
     if concrete:
         for p in concrete[:1]:
